@@ -136,7 +136,9 @@ func runHist(res *vh.Result, prop string) {
 		"C04": {1500, 40000}, "C05": {1200, 30000}, "C08": {1200, 120000}, "C11": {1500, 40000}, "C12": {3000, 100000},
 	}[prop]
 	total := vh.Tiered(n[0], n[1])
-	rn := &vh.Runner{ExtraSock: p.ExtraSock}
+	rnModel := &vh.Runner{ExtraSock: p.ExtraSock}
+	rnReal := newFullRunner(p.ExtraSock)
+	res.Assumptions = append([]string{"every sixth history (C04 C05 C11 C12) runs on the real gtp5g driver over the simulated kernel: the rule table compared with the model is then the kernel's"}, commonAssume...)
 	nconc := 0
 	if prop == "C11" {
 		nconc = vh.Tiered(40, 1500) // concurrent histories checked with porcupine
@@ -149,6 +151,12 @@ func runHist(res *vh.Result, prop string) {
 			return
 		}
 		h := vh.Generate(rng, p)
+		rn := rnModel
+		if prop != "C08" && i%6 == 5 && !(prop == "C11" && i%4 == 3) {
+			rn = rnReal
+			res.Count("histories_on_real_driver", 1)
+		}
+		rn.NoRemoveReport = false
 		if prop == "C11" {
 			// a quarter of the histories run on a data plane that removes URRs without a final report (as
 			// forwarder.Empty does): the session then keeps the URR's record until the URR is re-created
@@ -283,6 +291,18 @@ func nontrivial(prop string, tr *vh.Trace, an *vh.Analyzer) bool {
 	return true
 }
 
+// newFullRunner: histories on the real gtp5g driver over the simulated kernel (rule table = the kernel's)
+func newFullRunner(extraSock bool) *vh.Runner {
+	return &vh.Runner{ExtraSock: extraSock, NewDriver: func() (forwarder.Driver, func() map[vh.RuleKey]int, func()) {
+		wg := &sync.WaitGroup{}
+		d, err := vh.NewSimDriver(vh.SimDriverOpts{WG: wg})
+		if err != nil {
+			panic("sim driver: " + err.Error())
+		}
+		return d.G, d.K.Table, func() { d.Close(); wg.Wait() }
+	}}
+}
+
 // ---- C01: fault enumeration ----
 
 func runC01(res *vh.Result) {
@@ -298,14 +318,7 @@ func runC01(res *vh.Result) {
 	rnNoRep := &vh.Runner{NoRemoveReport: true}
 	// every fifth history runs on the real gtp5g driver over the simulated kernel: the rule table that is
 	// compared with the model is then the kernel's, and the faults hit the real driver's call sites
-	rnFull := &vh.Runner{NewDriver: func() (forwarder.Driver, func() map[vh.RuleKey]int, func()) {
-		wg := &sync.WaitGroup{}
-		d, err := vh.NewSimDriver(vh.SimDriverOpts{WG: wg})
-		if err != nil {
-			panic("sim driver: " + err.Error())
-		}
-		return d.G, d.K.Table, func() { d.Close(); wg.Wait() }
-	}}
+	rnFull := newFullRunner(false)
 	res.Cases(total, func(i int, rng *vh.Rng) {
 		h := vh.Generate(rng, p)
 		if i%5 == 3 {
